@@ -23,7 +23,7 @@ RULE = ("Hypothesis: solver in {greedy, greedy_worst, largest, random} x generat
         "explorable, zero padding only after the model says done; (2) matrices for p>1 equal those for p=1 exactly; (3) number of "
         "distinct recorded games == R for continuous seed-honouring generators. A second family of shards runs n=5 with the approximate "
         "SAM bounds (sam_apx_1 / sam_apx_10) on the integer / tied SAM families (k_budget, coverage, xs2, xs3, ...) mostly under the "
-        "order-agnostic random solver, R in {3,4,6}: there coalitions are pinned before they are revealed and a stale row shows. "
+        "order-agnostic random solver, R in {3,4,6}: there coalitions are pinned before they are revealed and a stale row shows. One configuration in four pairs an increasing family with the approximate SAM class (hidden game outside the assumed class: crossed bounds, negative gaps - rows are compared sign included). "
         "Non-trivial: R >= 4, some p >= 2 with R > p, continuous generator - or n=5 with R >= 3; distinct = hash of the configuration.")
 LEVEL_TEXT = ("Generated configurations, differential over process counts, with an implementation-independent observation channel "
               "(the after_reset callback) for which hidden game each repetition used. Chunkings of the task list are varied through (R, "
@@ -244,7 +244,15 @@ def cases(draw, all_families: bool, known_keys):
         gen = draw(st.sampled_from(libgames.CONTINUOUS + ["xs2", "xs2", "xs3", "xos2"]))
     n = draw(st.integers(3, 4))
     comp = "superadditive"
-    if gen in libgames.SAM_FAMILIES:
+    # one configuration in four pairs an increasing (non-SAM) family with the approximate SAM class - a legal --game-class /
+    # --game-generator combination: the hidden game is outside the assumed class, bounds cross and gaps are negative; the
+    # recorded rows must still be the gaps of the trajectory, sign included
+    mismatch = draw(st.integers(0, 3)) == 0
+    if mismatch:
+        gen = draw(st.sampled_from(["noisy_factory", "noisy_factory_square", "factory", "factory_cheerleader", "graph_random", "graph_beta_2_3", "noisy_factory_fixed"]))
+    if mismatch:
+        comp = draw(st.sampled_from(["sam_apx_1", "sam_apx_1", "sam_apx_10"]))
+    elif gen in libgames.SAM_FAMILIES:
         comp = draw(st.sampled_from(["superadditive", "superadditive_cached", "sam_apx_1"]))
     else:
         comp = draw(st.sampled_from(["superadditive", "superadditive_cached"]))
